@@ -22,6 +22,16 @@ chk("C08", "exploration",
     "Trusts the executor's canonical dump (public getters only) and the process-image restart (validated by the determinism self-test and by fresh-process replay of every violation). Event texts and probes are a fixed catalogue.",
     "deterministic simulation: seeded history/schedule search with differential oracles (O-scrub, O-fresh, O-solo)", "7/C08")
 
+chk("C18", "fault_enumeration",
+    "For each workload (9 fixed plans covering every public entry point plus seeded ones) and each step, the baseline counts the allocation requests issued by confuse.c and the step is re-run once per k with the k-th request failing - exhaustive over k per workload, as the property's quantifier demands. Each faulted run must not abort/exit/assert or trip ASan/UBSan; the faulted call must report failure or leave exactly the fault-free state; afterwards the context is dumped, printed and freed, nothing may leak, and a probe parse into a fresh context must give the fault-free result.",
+    "Workloads are a finite sample (complete over k for each). Scanner-internal allocations never fail (out of scope by the quantifier). 'Reports failure' is decided per entry point (DESIGN appendix A.4).",
+    "deterministic simulation: exhaustive single-allocation-failure injection per workload step, conservation + recovery oracles", "7/C18")
+
+chk("C07", "fault_enumeration",
+    "Even runs: for a seeded schema and rendered valid text (optionally including a file) the source is cut before/inside/after EVERY token and every token is replaced by wrong tokens - in the main text and in the included file - each followed by print, a second parse and free. Odd runs: seeded API histories (setters, bulk set, list set/append, section add/remove, annotation, search path, valid and corrupted parses, print, restart, free+re-init). After every run all contexts are freed and the simulator's exact accounting must balance: no live block, every library-opened stream closed, every pointer value released exactly once, include stack empty; ASan reports double free / use after free.",
+    "Complete over cut/corruption points per generated text; texts and histories are sampled. Trusts the allocator/stream seams' accounting and ASan.",
+    "deterministic simulation: systematic error-point enumeration (cut / token corruption at every token) and seeded API histories with conservation invariants", "7/C07")
+
 PENDING = {}  # id -> reason (checks not built yet)
 
 def main():
